@@ -254,6 +254,17 @@ func c05R4(c *Ctx, rule string) {
 	if len(writes) == 0 {
 		return
 	}
+	// one message ⇒ one record: no success return without the underlying write (an empty message is a record too:
+	// the reader's Read returns (0, nil) for it, and a message that is silently not sent shifts every later one)
+	for _, r := range returnsOf(w) {
+		if len(r.Results) == 2 && errIsNilAt(resultValue(r, 1), r) == "nonnil" {
+			continue
+		}
+		ret := r
+		skip := entrySearch(w, func(i ssa.Instruction) bool { return i == ssa.Instruction(writes[0]) }, func(i ssa.Instruction) bool { return i == ssa.Instruction(ret) })
+		c.Check(skip == nil, rule, "every non-error return of Write has written a record", c.at(r), "the underlying Write lies on every path to this return",
+			"a path reaches this possibly-successful return without writing anything: the caller is told the message was sent, the peer never sees a record for it")
+	}
 	// the pooled buffer
 	var get *ssa.Call
 	var puts []*ssa.Call
